@@ -226,3 +226,9 @@ func clip(s string, n int) string {
 	}
 	return s[:n] + fmt.Sprintf("...(%d bytes)", len(s))
 }
+
+func replayOnly(t *testing.T) {
+	if os.Getenv("VERIF_REPLAY") == "" {
+		t.Skip("no VERIF_REPLAY")
+	}
+}
